@@ -37,7 +37,8 @@ def run(res):
         cc.repo_tests_validate(res)
     cc.apalache_timer_core(res)
     if th:
-        # longer waits, dt up to 4, kills in the mix: model checking only (too large to dump)
+        # longer waits, dt up to 4: model checking only (too large to dump; without top-level kills - with them the
+        # free placement of restarted coroutines puts this instance beyond half an hour, C09's instances cover kills)
         S3b = {'g1': (('y', 2), ('y', 5), ('y', 0)), 'g2': (('y', 3), ('y', 0), ('y', 1)), 'g3': (('y', 1), ('y', 2), ('y', 3))}
-        Kb = dict(G=('g1', 'g2', 'g3'), Script=S3b, Dts={0, 1, 2, 4}, MaxTimer=12, WithKill=True, StartCancelsPendingKill=True, FinishDropsKillMark=True, BodyExceptionCleansUp=True)
+        Kb = dict(G=('g1', 'g2', 'g3'), Script=S3b, Dts={0, 1, 2, 4}, MaxTimer=12, WithKill=False, StartCancelsPendingKill=True, FinishDropsKillMark=True, BodyExceptionCleansUp=True)
         cc.check_and_replay(res, 'c08_timing_large', Kb, dump=False)
